@@ -892,7 +892,7 @@ def run_stream_params(ctx: C.Ctx, b: Batch) -> None:
     def val(kind):
         return rng.choice({"K": [-1, -1, -1, 0, 1, -2, None, True, LIT("x"), [], {}],
                            "Columns": [5, 5, 5, 4, 8, 1728, 0, -3],
-                           "flag": [True, False, 0, 1, 2, None]}[kind])
+                           "flag": [True, False, 0, 1, 2, None, True, False, LIT("x"), [], [0], {}, {"a": 1}]}[kind])
 
     for i in range(ctx.n(400, 6000)):
         p: Dict[str, Any] = {}
